@@ -126,6 +126,11 @@ NumTrees ==
                                       Bin("/", LI(33570818), LI(2)), Bin("%", LI(16785409), LI(16785408)), Bin("-", LI(0), Bin("*", LI(4099), LI(4099))),
                                       Bin("+", LitRaw(VI(10), "010"), LI(1)), Bin("*", LitRaw(VI(8), "08"), LitRaw(VI(100), "0100")), Bin("-", LitRaw(VI(7), "007"), LitRaw(VI(0), "00")),
                                       Bin("+", LitRaw(VI(190), "0190"), LitRaw(VI(9), "09")), LitRaw(VI(10), "010"), LitRaw(VI(30), "0030"), Un("-", LitRaw(VI(12), "012"))}}
+    \* chains of conditionals: a ? b : c ? d : e is a ? b : (c ? d : e); exactly one of the branches is evaluated
+    \cup {[ty |-> "int", e |-> Cond(Spy("sp", "s1", c1), Spy("sp", "s2", LI(1)), Cond(Spy("sp", "s3", c2), Spy("sp", "s4", LI(2)), Spy("sp", "s5", LI(3))))]
+            : c1 \in {LB(TRUE), LB(FALSE), LI(0)}, c2 \in {LB(TRUE), LB(FALSE)}}
+    \cup {[ty |-> "int", e |-> Cond(Bin("==", Var("a"), LI(n)), LI(0), Cond(Bin("==", Var("a"), LI(7)), LI(2), Cond(Bin("<", Var("a"), LI(9)), LI(4), LI(5))))] : n \in {1, 7}}
+    \cup {[ty |-> "str", e |-> Cond(c1, LS(<<>>), Cond(c2, LS(<<116>>), LS(<<109>>)))] : c1 \in {LB(TRUE), LB(FALSE)}, c2 \in {LB(TRUE), LB(FALSE)}}
     \* names that differ only in the case of their letters, names that spell a keyword with a capital, are names of their own
     \cup {[ty |-> "int", e |-> e] : e \in {Bin("-", Var("A"), Var("a")), Bin("+", Var("a"), Var("A")), Bin("+", Var("In"), Var("If")), Bin("*", Var("Set"), Var("With")),
                                             Bin("-", Attr(Var("o"), "X"), Attr(Var("o"), "x")), Bin("+", Var("From"), Bin("*", Var("As"), Var("Block"))), Bin("+", Var("Not"), Var("And"))}}
@@ -151,7 +156,7 @@ Ctx2 == Ctx @@ CaseNames @@ ("big" :> Big(60)) @@ ("big50" :> Big(50)) @@ ("bigt
 cT == <<84>>  cF == <<70>>  cX == <<88>>
 Obs(ty, x) == IF ty = "bool" THEN <<IfElse(x, <<Text(cT)>>, <<Text(cF)>>)>> ELSE <<PrintS(x)>>
 
-Positions == {"direct", "set", "elseif", "forseq", "incwith", "incwithonly", "iftruth", "filtarg", "fnarg", "macarg", "arrelem", "hashval"}
+Positions == {"direct", "set", "elseif", "forseq", "forseqfilt", "incwith", "incwithonly", "iftruth", "filtarg", "fnarg", "macarg", "arrelem", "hashval"}
 
 \* templates of position pos for tree e of type ty
 PosWorld(pos, ty, e) ==
@@ -159,6 +164,8 @@ PosWorld(pos, ty, e) ==
       [] pos = "set"     -> ("main" :> <<Set("z", e)>> \o Obs(ty, Var("z")))
       [] pos = "elseif"  -> ("main" :> <<If(<<LB(FALSE), e>>, <<<<Text(cX)>>, <<Text(cT)>>>>, <<Text(cF)>>, TRUE)>>)
       [] pos = "forseq"  -> ("main" :> <<For1("z", Arr(<<e>>), Obs(ty, Var("z")))>>)
+      \* the sequence is what a filter makes of an undefined name
+      [] pos = "forseqfilt" -> ("main" :> <<For1("z", Filt("default", Var("nosuchvar"), <<Arr(<<e>>)>>), Obs(ty, Var("z")))>>)
       [] pos = "incwith" -> ("main" :> <<Include(LS(NT.t1), Hash(<<LS(NT.z)>>, <<e>>), TRUE, FALSE, FALSE, FALSE)>>)
                             @@ ("t1" :> Obs(ty, Var("z")))
       [] pos = "incwithonly" -> ("main" :> <<Include(LS(NT.t1), Hash(<<LS(NT.z), LS(NT.y)>>, <<e, LI(1)>>), TRUE, TRUE, FALSE, FALSE)>>)
